@@ -127,6 +127,21 @@ def _run(ctx):
                 if seq != [('seek', 'start0'), ('header', 100), ('seek', 'end0'), ('flush', None)]:
                     good = False
                     desc.append("%s: %s" % (d, seq))
+        # while one file's cursor is inside its header nothing fallible happens on the other file: an error there would return
+        # with the first file positioned at byte 100, and the next appended record would overwrite the first one
+        inter = []
+        for t in cands:
+            ops = t['ops']
+            for d in set(dd for dd, k, info in ops):
+                s0 = [i for i, (dd, k, info) in enumerate(ops) if dd == d and k == 'seek' and info == 'start0']
+                e0 = [i for i, (dd, k, info) in enumerate(ops) if dd == d and k == 'seek' and info == 'end0']
+                if s0 and e0:
+                    inter += ["%s on %s while %s is positioned in its header" % (k, dd, d)
+                              for dd, k, info in ops[s0[0]:e0[-1]] if dd != d]
+        ctx.ob("C11.last", "cursor restored before the other file is touched (%s index)" % ("with" if has_shx else "without"),
+               not inter and bool(cands), "; ".join(sorted(set(inter))) or
+               "between a file's seek(0) and its seek(end) every operation is on that file", site=fsite,
+               key="C11.last|finalize|restore|%s" % has_shx)
         ctx.ob("C11.last", "finalize %s index" % ("with" if has_shx else "without"), good,
                "; ".join(sorted(set(desc))) or "seek(0), header(100), seek(end), flush per destination", site=fsite,
                key="C11.last|finalize|%s" % has_shx)
